@@ -186,9 +186,16 @@ pub fn run_check(ctx: &Ctx) -> i32 {
     let meta_cfgs: Vec<Prepared> = menu
         .iter()
         .filter(|(n, _)| ["none", "doc-text", "everything", "el(a[b])"].contains(n))
-        .map(|(_, hs)| Prepared::new(Cfg { adjust_charset: true, ..Cfg::with(hs.clone()).strict(false) }).unwrap())
+        .flat_map(|(n, hs)| {
+            let mut v = vec![Prepared::new(Cfg { adjust_charset: true, ..Cfg::with(hs.clone()).strict(false) }).unwrap()];
+            // strict mode too (a run stopped by the ambiguity guard has emitted a prefix of the input)
+            if ["doc-text", "everything"].contains(n) {
+                v.push(Prepared::new(Cfg { adjust_charset: true, ..Cfg::with(hs.clone()).strict(true) }).unwrap());
+            }
+            v
+        })
         .collect();
-    sweep(ctx, &format!("7 charset-declaring prefixes x F<={} x 4 configs with adjust_charset_on_meta_tag x L0,L1,LB", if ctx.quick() { 2 } else { 3 }), Space::MetaFrags { k, max: if ctx.quick() { 2 } else { 3 } }, &meta_cfgs, l1);
+    sweep(ctx, &format!("7 charset-declaring prefixes x F<={} x 6 configs (strict on and off) with adjust_charset_on_meta_tag x L0,L1,LB", if ctx.quick() { 2 } else { 3 }), Space::MetaFrags { k, max: if ctx.quick() { 2 } else { 3 } }, &meta_cfgs, l1);
     {
         let mut sc = prep(&menu, &["none", "doc-text", "el(a[b])", "everything"], &[false], "UTF-8");
         sc.extend(prep(&menu, &["everything"], &[false], "windows-1252"));
